@@ -852,22 +852,7 @@ def _check_persist_after_store(repo, r6, fi):
 
 def _check_client_loader(repo, r6):
     init = repo.func(F.CLI, "Service.__init__")
-    got_read = got_default = False
-    for st in ast.walk(init.node):
-        if isinstance(st, ast.If) and any(isinstance(c, ast.Call) and (dotted(c.func) or "").endswith("check_sid_local_file_valid")
-                                           for c in ast.walk(st.test)):
-            for s in st.body:
-                if isinstance(s, ast.Assign) and dotted(s.targets[0]) == "self.service_meta" and isinstance(s.value, ast.Call) \
-                        and (dotted(s.value.func) or "").endswith("read_service_meta"):
-                    got_read = True
-            for s in st.orelse:
-                if isinstance(s, ast.Assign) and dotted(s.targets[0]) == "self.service_meta" and isinstance(s.value, ast.Dict):
-                    for k, v in zip(s.value.keys, s.value.values):
-                        try:
-                            if repo.const_value(init.module, k) == "state" and repo.const_value(init.module, v) == 0:
-                                got_default = True
-                        except Exception:
-                            pass
+    got_read, got_default = F.loader_state_sources(repo, init, "check_sid_local_file_valid")
     r6.require(got_read, init, "loader reads persisted flags", "client Service.__init__ no longer loads service_meta from disk")
     r6.require(got_default, init, "loader default flags", "client Service.__init__ no longer starts an unknown service with no flags")
     m = repo.module(F.CLI_FM)
